@@ -436,12 +436,16 @@ class SimRaw(io.RawIOBase):
         return self._mode
 
     def fileno(self) -> int:
-        # Write-only handles hide their descriptor, so that bulk writers (numpy's tofile) go through write() and
-        # stay inside the seam.  Read-only and update ("+") handles hand it out: mmap / memmap need it, and what
-        # is written through a mapping is real (it merely is not fault-injected).
-        if self._f is not None and (not self._writable or "+" in self._mode):
-            return self._f.fileno()
-        raise io.UnsupportedOperation("SimRaw hides the descriptor of write-only handles")
+        # The real descriptor is handed out (os.fsync(f.fileno()), mmap, fstat need it) and registered with the
+        # seam, so that os.fsync / os.write / os.ftruncate on it are I/O events like any other.  A bulk writer
+        # that goes to the descriptor behind Python's back (numpy's tofile) is real but not fault-injected.
+        if self._f is None:
+            raise io.UnsupportedOperation("closed")
+        fd = self._f.fileno()
+        if self._writable:
+            self._fs.fds[fd] = self._path
+            self._registered_fd = fd
+        return fd
 
     def isatty(self) -> bool:
         return False
@@ -504,6 +508,9 @@ class SimRaw(io.RawIOBase):
                     super().close()
                     self._fs.post()
         finally:
+            fd = getattr(self, "_registered_fd", None)
+            if fd is not None:
+                self._fs.fds.pop(fd, None)
             if self._f is not None:
                 self._f.close()
             super().close()
